@@ -18,6 +18,25 @@ sys.path.insert(0, REPO)
 os.environ.setdefault('PYTHONHASHSEED', '0')
 
 
+def _janitor():
+    """scratch directories of runs that were killed (TLC work directories can be gigabytes):
+    anything of ours under /var/tmp that has not been touched for four hours"""
+    import glob
+    import shutil
+    import time
+    now = time.time()
+    for d in glob.glob('/var/tmp/verif-tlc-*') + glob.glob('/var/tmp/verif-real-*') + \
+            glob.glob('/var/tmp/verif-obs-*') + glob.glob('/var/tmp/verif-drv-*'):
+        try:
+            if now - os.stat(d).st_mtime > 4 * 3600:
+                if os.path.isdir(d):
+                    shutil.rmtree(d, ignore_errors=True)
+                else:
+                    os.unlink(d)
+        except OSError:
+            pass
+
+
 def main():
     ap = argparse.ArgumentParser()
     ap.add_argument('pid')
@@ -31,6 +50,7 @@ def main():
     from lib import replay
     from lib.sandbox import DriverCrash
     replay.start_workers()          # fork the replay workers while this process is small
+    _janitor()
     mod = importlib.import_module('checks.%s' % a.pid.lower())
     ctx = Ctx(a.pid, a.tier, seed)
     try:
